@@ -58,7 +58,7 @@ def _expected_defect_effect(kind, desc_type, has_audio):
     return False
 
 
-def h_jsep(ctx, depth, media):
+def h_jsep(ctx, depth, media, pre="none"):
     loop = asyncio.new_event_loop()
     loop.set_exception_handler(lambda *_: None)
     asyncio.set_event_loop(loop)
@@ -74,6 +74,17 @@ def h_jsep(ctx, depth, media):
         model = {"a": "stable", "b": "stable"}
         pending_offer_from = {"a": None, "b": None}  # ghost: text of the offer each peer is answering / awaiting an answer for
         log = []
+        if pre == "round":
+            # scripted prefix: one completed offer/answer round a -> b; exploration starts from there
+            # (the descriptions of that round stay available as stale arguments)
+            a, b = pcs["a"], pcs["b"]
+            made["a"]["offer"] = run(a.createOffer())
+            run(a.setLocalDescription(made["a"]["offer"]))
+            run(b.setRemoteDescription(made["a"]["offer"]))
+            made["b"]["answer"] = run(b.createAnswer())
+            run(b.setLocalDescription(made["b"]["answer"]))
+            run(a.setRemoteDescription(made["b"]["answer"]))
+            ctx.check(a.signalingState == "stable" and b.signalingState == "stable", "round-ends-stable")
         for step in range(depth):
             who = ctx.choice("who%d" % step, ["a", "b"])
             other = "b" if who == "a" else "a"
@@ -119,6 +130,10 @@ def h_jsep(ctx, depth, media):
                         want_exc = None if state == "have-remote-offer" else InvalidStateError
                         nxt = "stable"
                     run(p.setLocalDescription(d))
+                    ld = p.localDescription
+                    ctx.check(ld is not None and ld.type == typ, "localDescription-is-the-description-just-set", "%s in %s -> %r" % (call, state, None if ld is None else ld.type))
+                    if d is None:
+                        made[who][typ] = ld
                 elif call.startswith("setRemote"):
                     typ = call.split("-")[1]
                     d = made[other][typ]
@@ -148,6 +163,8 @@ def h_jsep(ctx, depth, media):
                         if legal_state and _expected_defect_effect(defect, typ, has_audio):
                             want_exc = ValueError
                     run(p.setRemoteDescription(RTCSessionDescription(sdp=text, type=typ)))
+                    rd = p.remoteDescription
+                    ctx.check(rd is not None and rd.type == typ and rd.sdp.count("\nm=") == text.count("\nm="), "remoteDescription-is-the-description-just-set", "%s in %s -> %r" % (call, state, None if rd is None else rd.type))
                 else:
                     nxt = "closed"
                     run(p.close())
@@ -209,9 +226,10 @@ HARNESSES = {
     "jsep": Harness(
         "jsep",
         h_jsep,
-        lambda tier: [{"depth": d, "media": m} for m in ("data", "both") for d in ((2, 3) if tier == "quick" else (2, 3, 4))],
+        lambda tier: [{"depth": d, "media": m} for m in ("data", "both") for d in ((2, 3) if tier == "quick" else (2, 3, 4))]
+        + [{"depth": d, "media": "both", "pre": "round"} for d in ((2,) if tier == "quick" else (2, 3))],
         style="BMC over API call sequences (real objects, real event loop)",
-        bounds="every sequence of 2..3 (quick) / 2..4 calls over {createOffer, createAnswer, setLocal(offer|answer|implicit), setRemote(offer|answer|defective with 7 defect kinds), close} applied to either peer of a pair (offerer with a data channel, or data channel + audio transceiver)",
+        bounds="every sequence of 2..3 (quick) / 2..4 calls over {createOffer, createAnswer, setLocal(offer|answer|implicit), setRemote(offer|answer|defective with 7 defect kinds), close} applied to either peer of a pair (offerer with a data channel, or data channel + audio transceiver), from the initial state and (2 / 2..3 calls) from the state after one completed offer/answer round",
         encoded=ENC,
         stubs=["none: real RTCPeerConnection objects, aioice gathers on local interfaces; background connection tasks are cancelled at the end of every path"],
         outside=["pranswer / rollback", "sequences longer than 4 calls", "symbolic SDP content (C09)"],
